@@ -294,7 +294,12 @@ fn build(pre: &Value) -> Result<Live, String> {
   for k in 1..=n as i64 {
     // alternate the two ways a key can enter the store
     let op = if k % 2 == 1 { json!({"name": "generate", "kt": "Ed25519", "alg": "EdDSA"}) } else { json!({"name": "insert", "jwk": "private_alg"}) };
-    let r = l.apply(&op)?;
+    let mut r = l.apply(&op)?;
+    if r["ok"] != json!(true) {
+      // a store may refuse one of the two ways in (the contract says what it may accept, not what it must): use the other
+      let other = if k % 2 == 1 { json!({"name": "insert", "jwk": "private_alg"}) } else { json!({"name": "generate", "kt": "Ed25519", "alg": "EdDSA"}) };
+      r = l.apply(&other)?;
+    }
     if r["ok"] != json!(true) {
       return Err("could not create a key for the pre-state".into());
     }
